@@ -744,10 +744,12 @@ class ConfigDict(Config):
 
 
 def _format_string(value: bytes) -> bytes:
-    if (
-        value.startswith((b" ", b"\t"))
-        or value.endswith((b" ", b"\t"))
-        or b"#" in value
+    # Quote whatever a reader would otherwise strip (leading/trailing
+    # whitespace, including a trailing carriage return), cut off as a comment
+    # (both comment characters) or, in git's case, turn into a plain space
+    # (other whitespace characters outside quotes).
+    if value != value.strip() or any(
+        c in value for c in (b"#", b";", b"\r", b"\x0b", b"\x0c")
     ):
         return b'"' + _escape_value(value) + b'"'
     else:
@@ -766,7 +768,8 @@ _WHITESPACE_CHARS = [ord(b"\t"), ord(b" ")]
 
 
 def _parse_string(value: bytes) -> bytes:
-    value_array = bytearray(value.strip())
+    # git only treats space, tab, CR and LF as whitespace here
+    value_array = bytearray(value.strip(b" \t\r\n"))
     ret = bytearray()
     whitespace = bytearray()
     in_quotes = False
@@ -820,8 +823,9 @@ def _parse_string(value: bytes) -> bytes:
 
 def _escape_value(value: bytes) -> bytes:
     """Escape a value."""
+    # Only the escapes git understands (\\, \", \n, \t, \b); in particular there
+    # is no \r escape: git rejects it, and our own reader does not know it either.
     value = value.replace(b"\\", b"\\\\")
-    value = value.replace(b"\r", b"\\r")
     value = value.replace(b"\n", b"\\n")
     value = value.replace(b"\t", b"\\t")
     value = value.replace(b'"', b'\\"')
